@@ -10,6 +10,7 @@ import (
 	"encoding/json"
 	"fmt"
 	"os"
+	"regexp"
 	"strings"
 	"time"
 
@@ -67,7 +68,7 @@ var valueKinds = []string{
 	"(function(){return 1}).bind({t:1},2)", "/(a)(b)?/.exec('ab')", `JSON.parse('{"a":[1,{"b":null}],"__proto__":{"c":1}}')`,
 	"(function(){var a=[1,2,3];Object.defineProperty(a,'1',{get:function(){a.length=0;return 9},enumerable:true,configurable:true});return a})()",
 	"(function(){var p={};Object.defineProperty(p,'inh',{get:function(){return this},set:function(v){throw new TypeError('s')},enumerable:true});return Object.create(p,{own:{value:1}})})()",
-	"(function(){try{null.x}catch(e){return e}})()", "Object.preventExtensions([1,2])", "Object.seal({a:{}})", "(function(){var f=function(){};f.prototype=null;return f})()",
+	"(function(){try{null.x}catch(e){return e}})()", "Object.create(new Error('p'))", "(function(){function M(){} M.prototype=new RangeError('p'); return new M()})()", "Object.create((function(){try{undefinedFn()}catch(e){return e}})())", "Object.create(/x/g)", "Object.create(new Date(0))", "Object.create([1,2])", "Object.create(function(a,b){})", "Object.create((function(){return arguments})(1,2))", "Object.create(new String('ab'))", "Object.preventExtensions([1,2])", "Object.seal({a:{}})", "(function(){var f=function(){};f.prototype=null;return f})()",
 }
 
 // excluded: (function suffix, reason). Resource exhaustion is outside the
@@ -135,6 +136,9 @@ func newVM() *otto.Otto {
 
 const discoverJS = `(function(){
   var seen=[], out=[], q=[[this,"this",0]];
+  // objects the runtime creates carry functions of their own (accessors such as an error's stack getter)
+  var inst=['new Error("x")','(function(){try{null.x}catch(e){return e}})()','[]','(function(){})','(function(){}).bind(null)','/x/g','new Date(0)','(function(){return arguments})(1)','Object("s")','Object(1)','JSON.parse("{}")','/a/.exec("a")'];
+  for(var ii=0;ii<inst.length;ii++){ try{ q.push([eval(inst[ii]),"("+inst[ii]+")",3]) }catch(e){} }
   function idx(o){for(var i=0;i<seen.length;i++)if(seen[i]===o)return i;return -1}
   while(q.length){
     var it=q.shift(), o=it[0], path=it[1], d=it[2];
@@ -205,6 +209,12 @@ func touch(v otto.Value) {
 		_, _ = o.Get("length")
 		return
 	}
+	if o := v.Object(); o != nil {
+		// inherited accessors run with this object as receiver
+		for _, k := range []string{"stack", "message", "name", "caller", "arguments", "callee", "lastIndex", "source", "prototype", "constructor", "0", "length"} {
+			_, _ = o.Get(k)
+		}
+	}
 	_, _ = v.Export()
 	_, _ = v.MarshalJSON()
 	if o := v.Object(); o != nil {
@@ -253,6 +263,13 @@ func runBatch(c *run.Ctx, fn string, via string, ts, as, bs, cs []int) {
 		c.Nontrivial(fmt.Sprintf("%s|%s|%d|%d|%d|%d", fn, via, cur.t, cur.a, cur.b, cur.c))
 		return otto.UndefinedValue()
 	})
+	vm.Set("$caught", func(call otto.FunctionCall) otto.Value {
+		reached++
+		goRuntimeError(c, fn, via, cur.t, cur.a, cur.b, cur.c, call.Argument(0))
+		touch(call.Argument(0))
+		c.Nontrivial(fmt.Sprintf("%s|%s|%d|%d|%d|%d", fn, via, cur.t, cur.a, cur.b, cur.c))
+		return otto.UndefinedValue()
+	})
 	var kinds strings.Builder
 	kinds.WriteString("var $K=[")
 	for i, k := range valueKinds {
@@ -270,6 +287,14 @@ func runBatch(c *run.Ctx, fn string, via string, ts, as, bs, cs []int) {
 		call = "$f.apply($K[t](),[$K[a](),$K[b](),$K[c]()])"
 	case "bind":
 		call = "$f.bind($K[t](),$K[a]())($K[b](),$K[c]())"
+	case "newbind":
+		call = "new ($f.bind($K[t](),$K[a]()))($K[b](),$K[c]())"
+	case "bindbind":
+		call = "$f.bind($K[t]()).bind($K[a](),$K[b]())($K[c]())"
+	case "callcall":
+		call = "$f.call.call($f,$K[t](),$K[a](),$K[b]())"
+	case "applyapply":
+		call = "$f.apply.apply($f,[$K[t](),[$K[a](),$K[b](),$K[c]()]])"
 	case "call1":
 		call = "$f.call($K[t](),$K[a]())"
 	case "call0":
@@ -312,7 +337,7 @@ for (var ti=0;ti<$T.length;ti++) for (var ai=0;ai<$A.length;ai++) for (var bi=0;
   %s
   $sane();
   $mark(t,a,b,c);
-  try { $touch(%s) } catch (e) { $touch(e) }
+  try { $touch(%s) } catch (e) { $caught(e) }
 }}
 $n`, fn, ints(ts), ints(as), ints(bs), ints(cs), lim, call)
 	start := 0
@@ -364,8 +389,43 @@ $n`, fn, ints(ts), ints(as), ints(bs), ints(cs), lim, call)
 			touch(call.Argument(0))
 			return otto.UndefinedValue()
 		})
+		vm.Set("$caught", func(call otto.FunctionCall) otto.Value {
+			reached++
+			goRuntimeError(c, fn, via, cur.t, cur.a, cur.b, cur.c, call.Argument(0))
+			touch(call.Argument(0))
+			return otto.UndefinedValue()
+		})
 	}
 	c.Feature("via:" + via)
+}
+
+var goErrRe = regexp.MustCompile(`runtime error:|\(runtime\.\w+\)|interface conversion:|reflect: |nil pointer dereference|index out of range|slice bounds out of range`)
+
+// goRuntimeError reports a Go run-time error (nil dereference, index out of
+// range, failed type assertion) inside a built-in. Inside a script's try block
+// the interpreter hands such an error to the script as a TypeError, so the
+// batch driver's catch sees it instead of the API boundary; outside a try block
+// the very same call brings Run down with a Go panic.
+func goRuntimeError(c *run.Ctx, fn, via string, t, a, b, cc int, e otto.Value) {
+	msg := ""
+	if e.IsString() {
+		msg = e.String() // older trees hand the bare text of the run-time error to the script
+	} else if e.IsObject() {
+		if m, err := e.Object().Get("message"); err == nil && m.IsString() {
+			msg = m.String()
+		}
+	}
+	if goErrRe.MatchString(msg) {
+		in := Input{Kind: "surface", Fn: fn, Via: via, This: t, A: a, B: b, C: cc}
+		c.Fail("panic", fn, in, "value or JavaScript exception", "Go run-time error surfaced as a catchable TypeError: "+msg, fmt.Sprintf("receiver=%s args=%s,%s,%s via=%s (the same call outside try/catch escapes Run as a Go panic)", kindName(t), kindName(a), kindName(b), kindName(cc), via))
+	}
+}
+
+func kindName(i int) string {
+	if i >= 0 && i < len(valueKinds) {
+		return valueKinds[i]
+	}
+	return fmt.Sprint(i)
 }
 
 func seq(n int) []int {
@@ -404,6 +464,7 @@ func exec(c *run.Ctx, i int) {
 		}
 		runBatch(c, fn, "call", seq(nk), sample(r, nk, na), sample(r, nk, na), []int{0})
 		runBatch(c, fn, "new", []int{0}, sample(r, nk, na+2), sample(r, nk, na), sample(r, nk, 2))
+		runBatch(c, fn, "newbind", sample(r, nk, 2), sample(r, nk, 2), sample(r, nk, 2), []int{0})
 		if c.Index%7 == 0 {
 			c.Sample(map[string]interface{}{"fn": fn, "receivers": nk, "arg_kinds": na})
 		}
@@ -416,7 +477,7 @@ func exec(c *run.Ctx, i int) {
 		switch r.Intn(3) {
 		case 0:
 			fn := fns[r.Intn(len(fns))]
-			runBatch(c, fn, []string{"apply", "bind", "call1", "call0"}[r.Intn(4)], sample(r, nk, 10), sample(r, nk, 10), sample(r, nk, 6), sample(r, nk, 2))
+			runBatch(c, fn, []string{"apply", "bind", "call1", "call0", "newbind", "bindbind", "callcall", "applyapply"}[r.Intn(8)], sample(r, nk, 10), sample(r, nk, 10), sample(r, nk, 6), sample(r, nk, 2))
 			goAPI(c, fn, r)
 		case 1:
 			sourceCase(c, r)
@@ -472,7 +533,36 @@ func goAPIPairs(c *run.Ctx, fn string, pairs [][2]int) {
 
 var apis = []string{"Run", "Eval", "Compile", "Call", "Object", "eval", "Function", "Set-Get"}
 
+// hostileThrows: the value that reaches the API boundary uncaught has to be
+// described (name, message, toString), which runs script code again.
+var hostileThrows = []string{
+	"throw {toString: function(){ throw 1 }}",
+	"throw {toString: function(){ throw new RangeError('inner') }}",
+	"throw {toString: function(){ throw {toString: function(){ throw 3 }} }}",
+	"throw {toString: function(){ return {} }, valueOf: function(){ return {} }}",
+	"throw {toString: function(){ return this }}",
+	"var e = new Error('x'); Object.defineProperty(e, 'message', {get: function(){ throw 2 }}); throw e",
+	"var e = new TypeError('x'); Object.defineProperty(e, 'name', {get: function(){ throw new Error('n') }}); throw e",
+	"var e = new Error('x'); e.name = {toString: function(){ throw 4 }}; e.message = {toString: function(){ throw 5 }}; throw e",
+	"var e = new Error('x'); e.toString = function(){ throw 6 }; throw e",
+	"var e = Object.create(new RangeError('p')); e.message = 7; throw e",
+	"Error.prototype.toString = function(){ throw 8 }; null.x",
+	"Object.prototype.toString = function(){ throw 9 }; throw {}",
+	"Object.defineProperty(Error.prototype, 'name', {get: function(){ throw 10 }}); undefinedFunction()",
+	"throw function(){ throw 11 }",
+	"throw Object.create(null)",
+	"throw [{toString: function(){ throw 12 }}]",
+	"throw new (function F(){ this.toString = function(){ return F() } })()",
+	"(function f(){ throw {toString: f} })()",
+}
+
 func hostileSource(r *gen.Rand) string {
+	if r.Chance(1, 6) {
+		if r.Bool() {
+			return hostileThrows[r.Intn(len(hostileThrows))]
+		}
+		return "throw " + valueKinds[r.Intn(len(valueKinds))]
+	}
 	switch r.Intn(8) {
 	case 0:
 		return litfuzz.Source(r)
@@ -633,6 +723,22 @@ var stackShapes = map[string]string{
 	"unbounded-reenter":       "function f(){return reenter('f()')} f()",
 	"unbounded-call-eval":     "function f(){return eval.call(null,'f()')} f()",
 	"unbounded":               "function f(){return f()} f()",
+	// recursion that goes through something other than a script function call
+	"unbounded-eval-self":     "var s='eval(s)'; eval(s)",
+	"unbounded-eval-fn":       "function f(){return eval('f()')} f()",
+	"unbounded-function-ctor": "var f=Function('return f()'); f()",
+	"unbounded-tojson":        "var o={toJSON:function(){return JSON.stringify(o)}}; JSON.stringify(o)",
+	"unbounded-sort":          "function c(){[2,1].sort(c); return 0} c()",
+	"unbounded-replace":       "function r(){return 'x'.replace(/x/,r)} r()",
+	"unbounded-valueof":       "var o={valueOf:function(){return o+1}}; o+1",
+	"unbounded-getter":        "var o={get g(){return this.g}}; o.g",
+	"unbounded-bound":         "var b=function(){return b()}.bind(null); b()",
+	"unbounded-callcall":      "function f(){return f.call.call(f)} f()",
+	"unbounded-new":           "function F(){return new F()} new F()",
+	"unbounded-foreach":       "function f(){[1].forEach(f)} f()",
+	"unbounded-reduce":        "function f(){return [1,2].reduce(f)} f()",
+	"unbounded-define-getter": "var o={}; Object.defineProperty(o,'g',{get:function(){return o.g}}); o.g",
+	"unbounded-tostring-join": "var a=[]; a[0]=a; a.toString=function(){return this.join()}; ''+a === '' || 1",
 	"unbounded-catch":         "function f(){try{return f()}catch(e){return e instanceof RangeError?'R':'other:'+e}} f()",
 	"unbounded-finally":       "var k=0; function f(){try{return f()}finally{k++}} try{f()}catch(e){e instanceof RangeError}",
 }
